@@ -127,3 +127,17 @@ package xrep
 //@
 //@ func (*socket).SendMsg
 //@   before select#1 assert selwaits(p.closeQ) && selsends(p.sendQ)
+// ---- generated default contracts (tools/gen_default_contracts.py) ----
+//@ func NewProtocol
+//@   ensures cast("*socket", result).closed == false
+//@   ensures cast("*socket", result).closeQ != nil && !closed(cast("*socket", result).closeQ)
+//@   ensures cast("*socket", result).sizeQ != nil && !closed(cast("*socket", result).sizeQ)
+//@   ensures cast("*socket", result).recvQ != nil && cap(cast("*socket", result).recvQ) == cast("*socket", result).recvQLen
+//@   ensures cast("*socket", result).recvExpire == 0
+//@   ensures cast("*socket", result).sendExpire == 0
+//@   ensures cast("*socket", result).sendQLen == 128
+//@   ensures cast("*socket", result).recvQLen == 128
+//@   ensures cast("*socket", result).bestEffort == false
+//@   ensures cast("*socket", result).ttl == 8
+//@
+// ---- end generated default contracts ----
